@@ -25,8 +25,10 @@ Proof. exact C13_admit_partial_l. Qed.
 Print Assumptions C13_admit_partial.
 
 (* the full statement adds: the sender is a current validator and the feeder's round is open.
-   The code enforces that only through the existence of the nonce row, and rows of removed validators are
-   not cleaned up, so this part is false of the (faithful) model: *)
+   The code enforces that only through the existence of the nonce row. With the repaired EndBlock (rows of a sealed
+   round are removed for EVERY validator, also for one that the same block's update removes) a removed validator is
+   no longer let in (regression example below); but the statement is still false of the faithful model because a
+   failed tx can leave a round closed in memory while its nonce rows are still in the store: *)
 Definition C13_admit_full : Prop := forall p now st t st' ok,
   deliver_tx p now st t = (st', true, ok) ->
   forall x, In x (t_msgs t) ->
@@ -35,19 +37,28 @@ Definition C13_admit_full : Prop := forall p now st t st' ok,
 
 Definition ex_state21 : state := end_block ex_params 21 [(3, 0)] ex_state20.   (* validator 3 leaves *)
 
-Theorem C13_admit_validator_refuted :
-  exists st t st',
-    st = end_block ex_params 21 [(3, 0)] (end_block ex_params 20 [] ex_state0) /\
-    deliver_tx ex_params ex_now st t = (st', true, false) /\
-    (exists x, In x (t_msgs t) /\ zget (m_vals (st_mem st)) (m_creator x) = None /\
-               exists r, zget (m_rounds (st_mem st)) (m_feeder x) = Some r /\ r_status r = 2).
+(* regression example for the repaired stale-row defect: the validator removed while the round was open has lost its
+   row and is not let in any more *)
+Example ex_removed_validator_not_admitted :
+  s_nonces (st_store ex_state21) = [] /\
+  deliver_tx ex_params ex_now ex_state21 (mkTx [ex_msg 3 1 "1" 100] 300 true true) = (ex_state21, false, false).
+Proof. vm_compute. split; reflexivity. Qed.
+
+(* after [v0; v1; (v2: completing message + failing message)] the round is closed in memory, the rows are back *)
+Definition ex_state_closed : state :=
+  let s1 := fst (fst (deliver_tx ex_params ex_now ex_state20 (mkTx [ex_msg 0 1 "1" 100] 300 true true))) in
+  let s2 := fst (fst (deliver_tx ex_params ex_now s1 (mkTx [ex_msg 1 1 "1" 100] 300 true true))) in
+  fst (fst (deliver_tx ex_params ex_now s2 (mkTx [ex_msg 2 1 "1" 100; ex_msg 2 2 "2" 100] 400 true true))).
+
+Theorem C13_admit_round_refuted :
+  exists t st',
+    deliver_tx ex_params ex_now ex_state_closed t = (st', true, false) /\
+    (exists x r, In x (t_msgs t) /\ zget (m_rounds (st_mem ex_state_closed)) (m_feeder x) = Some r /\ r_status r = 2).
 Proof.
-  exists ex_state21, (mkTx [ex_msg 3 1 "1" 100] 300 true true).
-  eexists. split; [reflexivity|]. split; [vm_compute; reflexivity|].
-  exists (ex_msg 3 1 "1" 100). split; [left; reflexivity|]. split; [vm_compute; reflexivity|].
-  eexists. split; vm_compute; reflexivity.
+  exists (mkTx [ex_msg 3 1 "1" 100] 300 true true). eexists. split; [vm_compute; reflexivity|].
+  exists (ex_msg 3 1 "1" 100). eexists. split; [left; reflexivity|]. split; vm_compute; reflexivity.
 Qed.
-Print Assumptions C13_admit_validator_refuted.
+Print Assumptions C13_admit_round_refuted.
 
 (* counted => time stamps, sender, open round, base block, rule (exactly the deterministic source),
    decimals, and at least one det-ID this validator has not reported in this round *)
